@@ -279,7 +279,7 @@ impl Engine for Decode {
         // ------------------------------------------------------------ (i) raw tree
         if ctx.want01 || ctx.want02 {
             let alpha = [0x00u8, 0x01, 0x02, 0xFF, special_byte(&d)];
-            let nmax = if thorough { if min <= 4 { 10 } else if min <= 8 { 9 } else { 8 } } else { 6 };
+            let nmax = if thorough { if min <= 4 { 10 } else if min <= 8 { 9 } else { 8 } } else { 7 };
             let mut buf = vec![0u8; nmax];
             for len in 0..=nmax {
                 let total = 5usize.pow(len as u32);
